@@ -35,13 +35,14 @@ ALPHABET = (
     + [("trajectory",), ("bad_period",), ("set_amp", 0), ("save_load",), ("load_inplace",), ("save_fault", "enospc"), ("save_fault", "eio"),
        ("save_torn_load",), ("generate", 0), ("generate", 1)]
     + [("sys_propagate", i) for i in range(len(SYSPROPS))]
+    + [("set_corr_config", 0), ("set_corr_config", 1)]
 )
 WEIGHTS = {"set_period": 1.2, "correct": 1.0, "set_opts": 0.5, "correct_default": 1.0, "read": 1.0, "propagate": 1.0, "trajectory": 3.0,
-           "bad_period": 1.0, "set_amp": 0.7, "save_load": 0.25, "load_inplace": 0.15, "save_fault": 0.5, "save_torn_load": 0.3, "generate": 0.35, "sys_propagate": 0.9}
+           "bad_period": 1.0, "set_amp": 0.7, "save_load": 0.25, "load_inplace": 0.15, "save_fault": 0.5, "save_torn_load": 0.3, "generate": 0.35, "sys_propagate": 0.9, "set_corr_config": 0.8}
 REDUCED = [("set_period", "x1.1"), ("set_period", "none"), ("correct", 0, 0), ("correct", 1, 1), ("set_opts", 1), ("correct_default",),
            ("read", "period"), ("read", "monodromy"), ("read", "stability_indices"), ("propagate", 0), ("propagate", 1), ("propagate", 3), ("trajectory",),
            ("bad_period",), ("save_fault", "enospc")]
-MUTATORS = {"set_period", "correct", "set_opts", "correct_default", "set_amp", "save_load", "load_inplace"}
+MUTATORS = {"set_period", "correct", "set_opts", "correct_default", "set_amp", "save_load", "load_inplace", "set_corr_config"}
 INTEGRATING = {"correct", "correct_default", "propagate", "generate", "sys_propagate"}
 INTEGRATING_READS = {"monodromy", "stability_indices", "eigenvalues", "is_stable"}
 
@@ -56,6 +57,18 @@ def _orbit_cls(fam):
     from hiten.system.orbits.lyapunov import LyapunovOrbit
     from hiten.system.orbits.vertical import VerticalOrbit
     return {"halo": HaloOrbit, "lyapunov": LyapunovOrbit, "vertical": VerticalOrbit}[fam]
+
+
+def _alt_config(o, variant):
+    """The family's default correction configuration (variant 0) or the same with other control indices (variant 1):
+    another, equally legitimate, differential-correction problem for the same orbit."""
+    import dataclasses
+    from hiten.algorithms.types.states import SynodicState as S
+    base_cfg = type(o)(o.libration_point, initial_state=np.array(o.initial_state, float)).correction_config   # a fresh object's default
+    if variant == 0:
+        return base_cfg
+    alt = {"halo": (S.Z, S.VY), "lyapunov": (S.X, S.VZ), "vertical": (S.X, S.VY)}[o.family if o.family in ("halo", "lyapunov") else "vertical"]
+    return dataclasses.replace(base_cfg, control_indices=alt)
 
 
 def _merge_opts(o, tol, ma):
@@ -92,8 +105,8 @@ def warmup(U, tier):
 def new_model(spec_i, corrected: bool = False):
     s = SPECS[spec_i]
     if corrected:   # an orbit object constructed from a converged state, with its period set
-        return {"spec": spec_i, "x": s["xs"].copy(), "T": s["T0"], "amp": None, "opts": None, "lastprop": None}
-    return {"spec": spec_i, "x": s["x0"].copy(), "T": None, "amp": None, "opts": None, "lastprop": None}
+        return {"spec": spec_i, "x": s["xs"].copy(), "T": s["T0"], "amp": None, "opts": None, "lastprop": None, "cfgvar": 0}
+    return {"spec": spec_i, "x": s["x0"].copy(), "T": None, "amp": None, "opts": None, "lastprop": None, "cfgvar": 0}
 
 
 def build(model, lp):
@@ -106,6 +119,8 @@ def build(model, lp):
         o.amplitude = model["amp"]
     if model["opts"] is not None:
         o.correction_options = _merge_opts(o, *model["opts"])
+    if model.get("cfgvar"):
+        o.correction_config = _alt_config(o, model["cfgvar"])
     return o
 
 
@@ -179,6 +194,9 @@ def apply(o, op, model):
     if k == "set_amp":
         o.amplitude = [0.123][op[1]]
         return None
+    if k == "set_corr_config":
+        o.correction_config = _alt_config(o, op[1])
+        return None
     if k == "read":
         return read(o, op[1])
     if k == "propagate":
@@ -197,6 +215,8 @@ def model_after(model, op, rb):
         new["amp"] = [0.123][op[1]]
     if op[0] == "set_opts":
         new["opts"] = (TOLS[op[1]], ATTEMPTS[0])
+    if op[0] == "set_corr_config":
+        new["cfgvar"] = op[1]
     if changed:
         new["lastprop"] = None
     return new
@@ -378,25 +398,35 @@ def step(ctx, U, ob, j, op, hist):
     # ---------------- ordinary operations: real vs fresh twin
     if k == "propagate" and model["T"] is None:
         pass  # both must raise
-    exp = twin_memo(("orbit-op", model["spec"], model["x"], model["T"], model["amp"], model["opts"], op),
+    exp = twin_memo(("orbit-op", model["spec"], model["x"], model["T"], model["amp"], model["opts"], model.get("cfgvar", 0), op),
                     lambda: _twin_apply(model, op, U))
     t_out, t_rb = exp
     r_out = attempt(lambda: apply(real, op, model))
     log.add("op", entry, r_out.kind(), digest(r_out.value) if not r_out.failed else None)
+    if r_out.failed != t_out.failed and ob["reloaded"] and (model["opts"] is not None or model.get("cfgvar")) \
+            and k in ("correct_default", "correct", "generate") and known_active("C20-K3-user-set-correction-options-lost-by-save-load"):
+        m2 = dict(model, opts=None, cfgvar=0)
+        alt_out, alt_rb = twin_memo(("orbit-op", m2["spec"], m2["x"], m2["T"], m2["amp"], None, 0, op), lambda: _twin_apply(m2, op, U))
+        if alt_out.failed == r_out.failed and (r_out.failed or eq(r_out.value, alt_out.value)):
+            ctx.note_known("C20-K3-user-set-correction-options-lost-by-save-load")
+            model["opts"], model["cfgvar"] = None, 0
+            t_out, t_rb = alt_out, alt_rb
     if r_out.failed != t_out.failed:
         raise Violation(f"C20/orbit/outcome-{k}", f"operation {op} on the long-lived object: {r_out.kind()} ({r_out.exc}); on a fresh twin in the same "
                                                   f"logical state: {t_out.kind()} ({t_out.exc}) | history: {hist}")
     if r_out.failed:
         ctx.probe("failed_op_then_continue")
         ctx.fault("op_failed_" + type(r_out.exc).__name__)
-    elif not eq(r_out.value, t_out.value) and (k in ("correct_default", "generate") or op == ("read", "corr_tol")) and ob["reloaded"] and model["opts"] is not None \
+    elif not eq(r_out.value, t_out.value) and (k in ("correct_default", "correct", "generate") or op == ("read", "corr_tol")) and ob["reloaded"] \
+            and (model["opts"] is not None or model.get("cfgvar")) \
             and known_active("C20-K3-user-set-correction-options-lost-by-save-load"):
         # K3: exactly what a fresh orbit WITHOUT the user-set options computes
-        m2 = dict(model, opts=None)
-        alt_out, alt_rb = twin_memo(("orbit-op", m2["spec"], m2["x"], m2["T"], m2["amp"], None, op), lambda: _twin_apply(m2, op, U))
+        m2 = dict(model, opts=None, cfgvar=0)   # what the reloaded object is: services rebuilt with the family defaults
+        alt_out, alt_rb = twin_memo(("orbit-op", m2["spec"], m2["x"], m2["T"], m2["amp"], None, m2.get("cfgvar", 0), op), lambda: _twin_apply(m2, op, U))
         if not alt_out.failed and eq(r_out.value, alt_out.value):
             ctx.note_known("C20-K3-user-set-correction-options-lost-by-save-load")
             model["opts"] = None
+            model["cfgvar"] = 0
             t_rb = alt_rb
         else:
             raise Violation(f"C20/orbit/value-{k}", f"{op} returned {_first_diff(r_out.value, t_out.value)} | history: {hist}")
